@@ -46,8 +46,32 @@ def analyse(rows, k):
 
 @st.composite
 def graph_cases(draw, tier):
-    source = draw(st.sampled_from(["arcs", "arcs", "generated", "dense"]))
-    if source == "generated":
+    source = draw(st.sampled_from(["arcs", "arcs", "generated", "dense", "dense_ball"]))
+    if source == "dense_ball":
+        # a pocket of maximum-out-degree vertices (everything within 4..6 steps of a root keeps d arcs) inside a
+        # thinner graph: the all-ones start sees the estimate d for several steps before the thin part is felt
+        k = draw(st.sampled_from([3, 3, 4]))
+        d = draw(st.sampled_from([2, 2, 3]))
+        rng = random.Random(draw(st.integers(0, 2 ** 32 - 1)))
+        table = o.succ_table(k)
+        thin = draw(st.sampled_from([0.25, 0.5, 0.75]))
+        rows = []
+        for _ in range(4 ** k):
+            degree = d if rng.random() > thin else rng.randrange(1, d)
+            rows.append(sum(1 << j for j in rng.sample(range(4), degree)))
+        level, seen = {rng.randrange(4 ** k)}, set()
+        for _ in range(draw(st.integers(4, 6))):
+            nxt = set()
+            for u in level - seen:
+                seen.add(u)
+                have = [j for j in range(4) if (rows[u] >> j) & 1]
+                more = [j for j in range(4) if not (rows[u] >> j) & 1]
+                rng.shuffle(more)
+                rows[u] = sum(1 << j for j in (have + more)[:d])
+                nxt |= {table[u][j] for j in range(4) if (rows[u] >> j) & 1}
+            level = nxt
+        graph = {"k": k, "rows": rows}
+    elif source == "generated":
         spec = draw(gens.generated_graphs(1, 4, {1: 2, 2: 4, 3: 3, 4: 1}))
         graph = {"k": spec["k"], "rows": spec["rows"]}
     else:
@@ -57,7 +81,7 @@ def graph_cases(draw, tier):
             graph = dict(graph, rows=[r | (1 << rng.randrange(4)) | (1 << rng.randrange(4)) for r in graph["rows"]])
     return {"graph": graph, "repeats": draw(st.integers(2, 10)), "np_seed": draw(st.integers(0, 2 ** 32 - 1)),
             "verbose": draw(st.sampled_from([False, False, False, True])),
-            "layout": draw(st.sampled_from([None, None, None, "F", "strided", "int32"]))}
+            "layout": draw(st.sampled_from([None, None, None, "F", "strided", "int32", "readonly"]))}
 
 
 def evaluate_graph(case):
@@ -70,6 +94,10 @@ def evaluate_graph(case):
     info = analyse(rows, k)
     labels = ["k=%d" % k, info["reason"]] + (["layout:" + case["layout"]] if case.get("layout") else [])
     results = {}
+    degree_list = [o.out_degree(rows, v) for v in range(len(rows)) if rows[v]]
+    if info["admissible"] and degree_list and k >= 3 and max(degree_list) < 4 and \
+            sum(1 for x in degree_list if x == max(degree_list)) < len(degree_list):
+        labels.append("admissible_mixed_degrees_k>=3")
     numpy.random.seed(case["np_seed"])
     results["random"] = lib_call(dsw.approximate_capacity, _twice=False, accessor=acc, repeats=case["repeats"])
     results["single"] = lib_call(dsw.approximate_capacity, accessor=acc, repeats=1, process=True,
@@ -300,7 +328,8 @@ SUBCHECKS = [
                   "arc-less graph) and no repeat may run more than maximum_iteration + 2 steps. Non-trivial: some "
                   "repeat ran out of its iteration budget (the median fallback decided the result)."),
     SubCheck("spectral_radius", evaluate_graph, strategy=graph_cases, examples=(1600, 24000), shards=(16, 16),
-             floors={"admissible": 250, "steps>5": 120, "arc_less": 3}, rule=RULE, timeout=120.0),
+             floors={"admissible": 250, "steps>5": 120, "arc_less": 3, "admissible_mixed_degrees_k>=3": 100}, rule=RULE,
+             timeout=120.0),
     SubCheck("regular_graphs", evaluate_regular, strategy=regular_cases, examples=(600, 6000), shards=(8, 16),
              floors={"with_dead_arcs": 100, "d=3": 50, "d=2": 50}, rule=RULE),
     SubCheck("lifted_large_orders", evaluate_lifted, strategy=lifted_cases, examples=(120, 1500), shards=(16, 16),
